@@ -75,7 +75,8 @@ def strategy_case(draw, tier):
                                       busy=True)))
     torn = draw(st.lists(st.integers(1, 600), min_size=0, max_size=4))
     return {"desc": desc, "prefix": prefix, "crash": crash, "torn": torn,
-            "all_meta_offsets": tier == "thorough" and draw(st.booleans())}
+            "all_meta_offsets": tier == "thorough" and
+            draw(st.integers(0, 3)) == 0}
 
 
 def committed_ids(h) -> dict:
@@ -310,6 +311,7 @@ def run_case(case, ctx):
         finally:
             snap.uninstall()
             dsops.ON_WRITE = None
+        snap.raise_if_failed()
         if failed is not None:
             ctx.label("observed-session-raised:" +
                       type(failed.exc).__name__)
@@ -367,6 +369,14 @@ def _deterministic_names():
     _time.time = now
 
 
+def _digest(root) -> dict:
+    """tree digest without in-flight temp files (snapshots do not keep them)"""
+    return {
+        k: v for k, v in dsops.tree_digest(root).items()
+        if not Path(k).name.startswith("update_")
+    }
+
+
 def _observed_run(args):
     """(grand)child: run the observed session on a private copy."""
     from sedpack.io import Dataset
@@ -387,7 +397,7 @@ def _observed_run(args):
     h.results = None
     if not observe:
         h.apply(case["crash"])
-        return {"final": dsops.tree_digest(h.root)}
+        return {"final": _digest(h.root)}
     snap = fsfault.Snapshotter(h.root, work / "snap", case["torn"], False)
     snap.kill_at = kill_at
     snap.install()
@@ -399,8 +409,8 @@ def _observed_run(args):
         snap.uninstall()
     digests = {}
     for b, key in snap.boundary_keys.items():
-        digests[b] = dsops.tree_digest(Path(snap.states[key]["dir"]))
-    return {"final": dsops.tree_digest(h.root), "by_boundary": digests,
+        digests[b] = _digest(Path(snap.states[key]["dir"]))
+    return {"final": _digest(h.root), "by_boundary": digests,
             "boundaries": snap.boundary}
 
 
@@ -455,7 +465,7 @@ def run_killcheck(case, ctx):
                     raise RuntimeError(
                         f"instrument: child died with status {died.status}"
                     ) from died
-            left = dsops.tree_digest(work / "ds")
+            left = _digest(work / "ds")
             if left != obs["by_boundary"][b]:
                 diff = sorted(set(left.items()) ^ set(
                     obs["by_boundary"][b].items()))[:6]
